@@ -80,8 +80,15 @@ claim("C11", "other",
       "Trusted: clang 14 + tbfscan, sympy expansion of closed forms, the convention table {7:3, 3:1, dim0 first} read from the decoders.",
       "codec extraction (base, offset, digit order) + shift-width agreement over the clang AST", "DESIGN.md §2 C11")
 
+claim("C14", "other",
+      "Three agreement clauses: (1) the addresses of the item-count and offset tables computed by the writer (resetBlocksFromSizes) and by the reader of a raw byte buffer (initHeader) are equal as polynomials in (allocated size, NbBlocks, sizeof(long)), the tables are adjacent, do not overlap and end at the allocation end, the allocation is payload + both tables, block pointers are base + recorded offset in both, offsets are the running sum of block sizes; "
+      "(2) in each block kind the size function, both viewers and the element iteration derive the row stride from the same GetLeadingDim(quantity, alignment) and the extent is stride x the other quantity, GetLeadingDim rounds up to the alignment; "
+      "(3) getDataPtrsAndSizes(), the raw-memory constructors and the get<X>Ptr/Size accessors (thorough: the StarPU handle registration) use the same slot order and pair each pointer with its own size. These are necessary for a byte copy viewed through the raw-memory constructor to be an equivalent view, for every layout. In-bounds access for every count/size is arithmetic and not decided.",
+      "Trusted: clang 14 + tbfscan, sympy polynomial normal form; StarPU part through the declaration stub.",
+      "writer/reader address polynomials, stride-source and slot-order agreement over the clang AST", "DESIGN.md §2 C14")
+
 _todo = "check not built yet in this round (see DESIGN.md §7 build order)"
-for p in ["C08","C10","C14","C15"]:
+for p in ["C08","C10","C15"]:
     NA[p] = _todo
 NA["C01"] = "exactly-once is a counting statement over all particle sets, heights, dimensions and groupings; no lint/effect/type argument bounds the list-builder arithmetic. Structural prerequisites are decided under C02/C03/C08/C11/C12."
 NA["C04"] = "bound on a floating-point truncation error over all positions/heights/orders: nothing about it is visible in the shape of the code (accumulate clause is under C08, code conventions under C11)."
